@@ -1,5 +1,6 @@
 import HdVerif.Model.PMap
 import HdVerif.Model.FrameAccess
+import HdVerif.Model.CodecGlue
 /-! C19: reading the frames of a parametric map back through ONE image object, along every path and after every history.
 
 `get_stored_frame` / `get_stored_frames` have two branches (`if self._pixel_array is None`): the un-cached one cuts the frame's
@@ -9,7 +10,7 @@ one subscripts the `pixel_array` that was decoded earlier.  Both are written her
 read-back theorems of this property speak about the current source; `Proofs/PMapRead.lean` relates them to the hand-written
 `readStoredFrame` of `Model/PMap.lean`. -/
 namespace HdVerif.PMap
-open HdVerif HdVerif.Gen HdVerif.FrameAccess
+open HdVerif HdVerif.Gen HdVerif.Codec HdVerif.FrameAccess
 
 /-- how the image object holds the data: the whole data set in memory, or a file read lazily -/
 inductive Holding | memory | lazy
@@ -96,5 +97,12 @@ def spec (x : PMInput) : ReadOp → ReadResult
       if f < x.n * x.m then
         (select (x.maps (f % x.m)) sel).bind (fun mp => applyMapping mp ((plane x (f / x.m) (f % x.m)).map cellValue))
       else .error .index)
+
+/-! ### a secondary capture read through highdicom's own readers -/
+
+/-- the pixel module of the written secondary capture, as the readers of the image classes see it (`Codec.readFrame`, T13g) -/
+def SCObject.module (ts : String) (o : SCObject) : Codec.PixelModule :=
+  ⟨ts, o.rows, o.cols, o.samplesPerPixel.toNat, o.bitsAllocated, some o.bitsStored, o.photometricInterpretation,
+   o.pixelRepresentation, o.planarConfiguration⟩
 
 end HdVerif.PMap
